@@ -1,5 +1,6 @@
 import Cfdp.Model.Segments
 import Cfdp.Model.Checksum
+import Cfdp.Model.Path
 
 /-!
 Line-protocol driver: executes the model's definitions on the op lines produced by the Rust
@@ -91,10 +92,27 @@ def cksumStep (toks : List String) : String :=
   | ["null", _] => toString Cksum.checksumNull.toNat
   | _ => "bad-op"
 
+def unesc (s : String) : String :=
+  if s == "-" then "" else ((s.replace "%20" " ").replace "%09" "\t").replace "%25" "%"
+
+def fmtComps (cs : List Path.Comp) : String :=
+  if cs.isEmpty then "-" else
+  "|".intercalate (cs.map (fun c => match c with
+    | .root => "R" | .cur => "." | .parent => ".." | .normal n => String.ofList n))
+
+def pathStep (toks : List String) : String :=
+  match toks with
+  | ["native", root, name] =>
+    match Path.nativePath (unesc root).toList (unesc name).toList with
+    | some cs => fmtComps cs
+    | none => "panic"
+  | _ => "bad-op"
+
 def step (st : DState) (line : String) : DState × String :=
   match (line.splitOn " ").filter (· ≠ "") with
   | "seg" :: rest => segStep st rest
   | "cksum" :: rest => (st, cksumStep rest)
+  | "path" :: rest => (st, pathStep rest)
   | _ => (st, "bad-op")
 
 partial def loop (h : IO.FS.Stream) (out : IO.FS.Stream) (st : DState) : IO Unit := do
